@@ -227,9 +227,10 @@ def run(ctx):
     ctx.ob("S3", "workspace", "only-big-endian-accessors", "-", True, f"{n_be} big-endian accessor calls inspected", nontrivial=False, ordinal=False)
     # 2022 UDP AES nonce = header[4..16]
     n_nonce = 0
-    for b in bodies:
-        if "shadowsocks::udp" not in b.defp or "aead_2022" not in b.defp:
+    for b0 in bodies:
+        if "shadowsocks::udp" not in b0.defp or "aead_2022" not in b0.defp or b0.root != b0.defp:
             continue
+        b = prog.flat(b0.defp)        # a helper that cuts the nonce out of the header is judged where it is used
         for (blk, c, t) in b.calls():
             if c.name not in ("Index::index",) or len(t["args"]) < 2:
                 continue
@@ -246,13 +247,17 @@ def run(ctx):
     ctx.floor("S3", "2022 UDP AES nonce slices", 4, n_nonce)
     # increasing nonce little-endian: loop index starts at 0 (Range{0, len})
     for b in bodies:
-        if (b.impl_self_def or "").endswith("IncreasingNonceGenerator") and b.method == "generate":
+        if (b.impl_self_def or "").endswith("IncreasingNonceGenerator") and b.root == b.defp and b.argc == 1 and b.local_ty(1).startswith("&mut") and "[u8]" in b.local_ty(0):
             starts = []
             for blk in b.rpo():
                 for s in b.stmts(blk):
                     if s["k"] == "assign" and s["rv"]["k"] == "agg" and s["rv"].get("def", "").endswith("ops::range::Range"):
                         starts.append(op_int(s["rv"]["ops"][0]))
-            ctx.ob("S3", b.defp, "counter-little-endian", loc(b.sp), starts == [0], f"carry loop starts at index {starts} (SIP004: little-endian counter)")
+            names = [c.name for (_, c, _) in b.calls()]
+            fwd_iter = any(n.endswith("::iter_mut") or n.endswith("::iter") or n == "IntoIterator::into_iter" for n in names) and not any(n.endswith("::rev") or n == "Iterator::rev" or n.endswith("next_back") for n in names)
+            ok = starts == [0] or (not starts and fwd_iter)
+            ctx.ob("S3", b.defp, "counter-little-endian", loc(b.sp), ok,
+                   f"carry loop starts at index {starts} (SIP004: little-endian counter)" if starts else ("carry loop walks the counter bytes front to back (little-endian)" if ok else "carry loop does not start at the least significant (first) byte"))
         if (b.impl_self_def or "").endswith("IncreasingNonceGenerator") and b.method == "init":
             ints = [c.get("int") for (c, _) in body_consts(b, False)]
             ctx.ob("S3", b.defp, "counter-starts-before-zero", loc(b.sp), 255 in ints or any((c.get("item") or "").endswith("MAX") for (c, _) in body_consts(b, False)), "initial state 0xFF.. so the first generated nonce is 0")
